@@ -74,4 +74,6 @@ namespace Sopht
 structure Transc (K : Type) where
   sin : K → K
   pi : K
+  cos : K → K := fun _ => pi
+  sqrt : K → K := fun x => x
 end Sopht
